@@ -564,6 +564,9 @@ class Interp:
 
     def arr_op(self, opname, a, b, node):
         """element-wise operation producing a fresh array"""
+        if opname in ('BitOr', 'BitAnd') and isinstance(a, NDArr) and isinstance(b, NDArr) and a.pred is not None and b.pred is not None:
+            return NDArr(Store(f'fresh@{getattr(node, "lineno", 0)}', None), dtype='bool',
+                         pred=('or' if opname == 'BitOr' else 'and', a.pred, b.pred))
         va = a.store.val if isinstance(a, NDArr) else a
         vb = b.store.val if isinstance(b, NDArr) else b
         val = self.pointwise(opname, va, vb)
@@ -667,6 +670,11 @@ class Interp:
                     if flip:
                         opn = dict(Lt='Gt', Gt='Lt', LtE='GtE', GtE='LtE').get(opn, opn)
                     pred = ('cmp', opn, float(other), arr.store.uid, arr.store.version)
+                elif isinstance(other, Opaque) and getattr(other, 'elem_of', None) is not None:
+                    opn = type(op).__name__
+                    if flip:
+                        opn = dict(Lt='Gt', Gt='Lt', LtE='GtE', GtE='LtE').get(opn, opn)
+                    pred = ('cmpelem', opn, (other.elem_of[0].uid, other.elem_of[1]), arr.store.uid, repr(arr.view))
                 return NDArr(Store(f'fresh@{getattr(node, "lineno", 0)}', None), dtype='bool', pred=pred)
             return self.ctx.fresh_bool('cmp')
         if not is_sym(a) and not is_sym(b):
@@ -888,8 +896,12 @@ class Interp:
         if isinstance(v, NDArr):
             if isinstance(k, NDArr):
                 return NDArr(Store(f'fresh@{getattr(node, "lineno", 0)}', None))      # advanced indexing copies
-            return NDArr(v.store, view='item') if (isinstance(k, tuple) and any(isinstance(x, (slice, type(Ellipsis))) or x is None for x in k)) \
-                else (v.store.val if v.store.val is not None and v.view == 'whole' and False else Opaque('element'))
+            if isinstance(k, tuple) and any(isinstance(x, (slice, type(Ellipsis))) or x is None for x in k):
+                return NDArr(v.store, view=('index', k, v.view), dtype=v.dtype)
+            o = Opaque(f'{v.store.origin}[{k}]')
+            o.tags |= set(v.store.deps)
+            o.elem_of = (v.store, k)
+            return o
         if isinstance(v, Obj):
             hook = self.ctx.opts.get('getitem_hook')
             if hook is not None:
